@@ -646,6 +646,7 @@ func runC19(c *run.Ctx) {
 			c.Sample(map[string]interface{}{"history": hist})
 		}
 	}
+	c19SharedSubscriber(c, "c19")
 }
 
 func keysOfBool(m map[int]bool) []int {
